@@ -111,6 +111,12 @@ def run(rep):
              'subscriptions() answers are dropped)', floor=4)
     rep.rule('R07.7', 'extendor index: add_extendor/remove_extendor keep the '
              'index exact (shared with C04 R04.3)', floor=2)
+    rep.rule('R07.8', 'subscriptions() memo (PY and C): probes '
+             '_scache[provided][tuple(required)]; a hit returns the stored '
+             'value; a miss stores exactly the fresh _uncached_subscriptions '
+             'result, in the dictionary fetched BEFORE that call (an answer '
+             'computed before a re-entrant changed() never lands in the live '
+             'cache, so a later unsubscribe is not masked)', floor=2)
     rep.decline('equality of the returned multiset with the net effect of an '
                 'arbitrary subscribe/unsubscribe history')
     rep.assume('resolution orders are those of C02/C03')
@@ -219,6 +225,13 @@ def run(rep):
     # R07.7 extendor index (same obligations as R04.3)
     from .C04 import run as _  # noqa
     shared.extendor_index(rep, 'R07.7', mod)
+
+    # R07.8 memo protocol of subscriptions()
+    from . import sem as _sem2, cside, csem
+    _sem2.cached_lookup_spec(rep, 'R07.8', find_def(mod, 'LookupBase.subscriptions'),
+                             'LookupBase.subscriptions', '_uncached_subscriptions',
+                             '_scache', 'tuple', False, ['required', 'provided'])
+    cside.fills(rep, cside.cu(rep), 'R07.8', only=('_subscriptions',))
 
 
 def walk_body(stmts):
